@@ -10,34 +10,54 @@ import json
 CLAIM = dict(
     text=("Machine-checked proof (Lean 4) over ALL operation histories of a BitField (any hierarchy depth, sibling scopes "
           "re-using names, fixed/automatic positions and lengths, tags, any interleaving of add_field / __call__ / "
-          "assign_fields with arbitrary instance values, any bit-field length): an invariant of the field tree "
-          "(co-presentable fields have distinct names and, once positioned, disjoint non-empty ranges inside the bit "
-          "field; every length covers the largest value given) is established by the empty bit field and preserved by "
-          "every operation, including an assign_fields that raises half-way.  From it: any two fields present in one "
-          "instance are disjoint and in range; __call__ rejects values wider than a known length; explicit definitions "
-          "that overflow or overlap a co-presentable positioned field are rejected; every present field's value is read "
-          "back from get_value() at the position get_location_and_length reports; get_mask() / get_mask(tag) have exactly "
-          "the bits of the present (tagged) fields; two instances that differ on a commonly present field never match "
-          "each other's key/mask.  Tied to rig/bitfield.py by exact correspondence of histories with full tree dumps after "
-          "every mutating call, the scan bound and max_value default regenerated from the source on every run, and the "
-          "Lean specification predicates evaluated on the implementation's own trees, keys, masks and positions.  "
-          "Validated per case by the Lean predicates but not proved: tag closure, 'every field has a position after a "
-          "successful assign_fields', value <= max_value for instances, and the completeness clause."),
+          "assign_fields with arbitrary instance values, any bit-field length).  Three invariants are established by the "
+          "empty bit field and preserved by every operation, including an assign_fields that raises half-way: (1) of the "
+          "field tree: co-presentable fields have distinct names and, once positioned, disjoint non-empty ranges inside the "
+          "bit field; every length covers the largest value given; (2) of its structure: every child key is a non-empty "
+          "tuple naming fields of the parent node, and every field required by a tagged field (and present with it) carries "
+          "the tag (tag_closed); (3) of the instances the code creates: every value names a field present in the instance "
+          "and is <= that field's max_value, hence fits the field's length once known (values_fit).  From them: any two "
+          "fields present in one instance are disjoint and in range; __call__ rejects values wider than a known length; "
+          "explicit definitions that overflow or overlap a co-presentable positioned field are rejected; after a successful "
+          "assign_fields every field has a position and a length (all_fixed_after_assign); for every instance every present "
+          "field's value is read back from get_value() at the position get_location_and_length reports "
+          "(readback_instance, no side condition); get_mask() / get_mask(tag) have exactly the bits of the present "
+          "(tagged) fields, and a tagged field's required fields are found by get_field with the tag; two instances "
+          "whose value dicts differ at all differ on a field present in both, and if both have keys their key/mask pairs "
+          "never match each other (orthogonal_instances, no side condition); completeness: with the repaired scan "
+          "bound (SCAN_SLACK = 1), nothing positioned explicitly, nested scopes and every co-present set of widths within "
+          "the length, assign_fields succeeds (complete_floating; also for the weaker per-chain condition).  Tied to "
+          "rig/bitfield.py by exact correspondence of histories with full tree dumps after every mutating call, the scan "
+          "bound and max_value default regenerated from the source on every run, and the Lean specification predicates "
+          "(proved equivalent to / used as hypotheses of the theorems) evaluated on the implementation's own trees, "
+          "instances, keys, masks and positions.  Only validated, not proved: that the hand-written model equals the "
+          "code (differential correspondence), and completeness for non-nested scopes (false: known finding)."),
     design="3/C08",
-    note=("Completeness clause: the unrepaired tree scans range(0, length - width) and can never use the top bit "
-          "(fixes/c08-assign-scan-bound.diff).  Beyond that, first-fit placement is NOT complete when fields of "
-          "different branches can be present together (children keyed on different parent fields): fragmentation, and for "
-          "some hierarchies (5-cycle of scopes) no layout exists at all although every co-present set fits - finding "
-          "complete-floating-cross-scope.  Auto length modelled as floor(log2(max))+1 (float log agrees below 2^48; generated "
-          "values stay below 2^40).  Explicit start positions are non-negative (documented 0-based index).  A RecursionError "
-          "of _Tree.add_field (instance values selecting fields of two children of one node) is modelled as an error and "
-          "ends the history."),
+    note=("Completeness: the theorem has the hypothesis SCAN_SLACK = 1 (the constant the translator reads from "
+          "_assign_field's range(0, length - width + 1); 0 on an unrepaired tree, where the clause is false: "
+          "fixes/c08-assign-scan-bound.diff) and nestedB (two fields can be present together only if one's node is an "
+          "ancestor of the other's).  First-fit placement is NOT complete when fields of different branches can be "
+          "present together (children keyed on different parent fields): fragmentation, and for some hierarchies "
+          "(5-cycle of scopes) no layout exists at all although every co-present set fits - finding "
+          "complete-floating-cross-scope.  'Two different complete assignments' means two instances whose dicts differ "
+          "as mappings; for arbitrary dicts (not instances) the exact extra condition is that every key names a field "
+          "present under that dict ({zz: 1} vs {} differ on no field) - it is part of the proved instance invariant.  "
+          "add_field is proved for arbitrary instance values (more general than the code).  Auto length modelled as "
+          "floor(log2(max))+1 (float log agrees below 2^48; generated values stay below 2^40).  Explicit start positions "
+          "are non-negative (documented 0-based index).  A RecursionError of _Tree.add_field (instance values selecting "
+          "fields of two children of one node) is modelled as an error and ends the history."),
     technique="Lean 4 theorems over a hand-written model + differential correspondence on histories + Lean spec predicates as oracle")
 
 THEOREMS = ["max_value_default", "inv_init", "inv_addField", "inv_call", "inv_assignFields", "reachable_inv",
             "assign_disjoint", "enabled_disjoint", "scope_unique", "wide_enough", "call_rejects_wide",
             "reject_explicit_overflow", "reject_explicit", "valuesFit_of_le_max", "readback", "mask_exact",
-            "mask_exact_tag", "orthogonal"]
+            "mask_exact_tag", "orthogonal",
+            # deepening round
+            "inv2_init", "reachable_inv2", "tree_structure", "tag_closed", "tag_closed_getField",
+            "all_fixed_after_assign", "getMask_ok_after_assign", "reachableI_reachable", "reachableI_instOK",
+            "values_fit", "instOKB_iff", "valuesFitB_iff", "readback_instance", "instances_differ_on_common",
+            "orthogonal_instances", "complete_floating_chains", "compatibleB_iff", "pairwiseB_iff",
+            "nested_of_nestedB", "complete_floating"]
 
 RULE = ("histories of 6-40 operations generated against the running implementation (mostly valid: names a-h, values 0-3 "
         "that open sibling scopes, lengths None/1-5, explicit positions incl. the top bit, tags, assign_fields in the middle "
@@ -399,6 +419,15 @@ def eval_runs(ctx, runs):
                     ask("orth", ri, (comp[a][0], comp[b][0]), op="orthogonal", key=comp[a][2], mask=comp[a][3],
                         key2=comp[b][2], mask2=comp[b][3])
         run.n_complete = len(comp)
+        # the instance invariant (values_fit, inst_ok) on every instance the history created, complete or not
+        if not run.dead:
+            seen_fv = set()
+            for i, b in enumerate(run.insts):
+                fvk = json.dumps(sorted(b.field_values.items()))
+                if fvk in seen_fv or len(seen_fv) >= 10:
+                    continue
+                seen_fv.add(fvk)
+                ask("inst", ri, i, op="instance", entries=final, fv=[[k, v] for k, v in b.field_values.items()])
 
     replies = ctx.lean(reqs)
     for (tag, ri, info), rep in zip(idx, replies):
@@ -447,6 +476,14 @@ def eval_runs(ctx, runs):
                               "(instance %d, tag %r)" % (i, t), case)
             if not rep["mask_exact"] or not rep["mask_is_locs"]:
                 ctx.violation("mask", "mask is not the union of the present fields' bits (instance %d, tag %r)" % (i, t), case)
+        elif tag == "inst":
+            if not rep["values_fit"]:
+                ctx.violation("value-too-wide", "instance %d holds a value that does not fit the length of its field" % info,
+                              case)
+            if not rep["inst_ok"]:
+                ctx.tag("instance-invariant-broken")
+                ctx.mismatch("c08.inst_ok", "instance %d holds a value above max_value / for a field not present in it"
+                             % info, case)
         elif tag == "orth":
             if rep is not True:
                 ctx.violation("not-orthogonal", "two different complete assignments (instances %d, %d) produce key/mask "
@@ -500,6 +537,11 @@ def run(ctx):
         "field identifiers are distinct from BitField attribute names; tag and field are not both given to a getter",
         "the history ends at a RecursionError of _Tree.add_field (the tree is left half-built by the code)",
     ]
+    # hypothesis of the completeness theorems: the repaired scan bound (constant regenerated from the source)
+    consts = ctx.lean([{"suite": "c08", "op": "consts"}])[0]
+    ctx.tag("scan_slack_%s" % consts.get("scan_slack"))
+    if consts.get("scan_slack") != 1:
+        ctx.tag("complete_floating-hypothesis-unmet")
     n = ctx.scale(1500, 40000)
     if ctx.extended:
         n *= 4
